@@ -235,6 +235,9 @@ func (in *inliner) unrolled(rs *ast.RangeStmt, u *unrollInfo) rope {
 }
 
 func (in *inliner) stmtText(st ast.Stmt) rope {
+	if r, ok := in.exprRepl[st]; ok {
+		return r
+	}
 	if u, ok := in.unroll[st]; ok {
 		return in.unrolled(st.(*ast.RangeStmt), u)
 	}
@@ -1934,8 +1937,31 @@ func (in *inliner) emitSite0(s *inlSite) (rope, bool) {
 			delete(in.defConv, st)
 		}
 	}()
+	// early mode: some return is not in tail position (inside a loop, below a branch that goes on).
+	// The body is wrapped in a labelled loop that runs once; every return becomes an assignment to
+	// the targets followed by a break out of that loop.
+	early := false
 	if s.form != formReturn && !tailReturns(body.List) {
-		return nil, false
+		if vloop != nil || len(unifiedRes) > 0 || len(convStmts) > 0 || len(zeroInit) > 0 {
+			return nil, false
+		}
+		nres := sig.Results().Len()
+		okRets := true
+		ast.Inspect(body, func(m ast.Node) bool {
+			switch t := m.(type) {
+			case *ast.FuncLit:
+				return false
+			case *ast.ReturnStmt:
+				if len(t.Results) != nres {
+					okRets = false // `return f()` forwarding several results
+				}
+			}
+			return true
+		})
+		if !okRets || (s.form != formExpr && len(lhs) != nres) {
+			return nil, false
+		}
+		early = true
 	}
 	if s.form == formExpr && sig.Results().Len() > 0 && containsReturn(body) {
 		// results are dropped: conv emits blank assignments
@@ -2037,7 +2063,54 @@ func (in *inliner) emitSite0(s *inlSite) (rope, bool) {
 	for _, z := range zeroInit {
 		out = append(out, g("%s\n", z)...)
 	}
-	if s.form == formReturn {
+	if early {
+		label := fmt.Sprintf("inlonce%d", s.id)
+		var rets []*ast.ReturnStmt
+		ast.Inspect(body, func(m ast.Node) bool {
+			switch t := m.(type) {
+			case *ast.FuncLit:
+				return false
+			case *ast.ReturnStmt:
+				rets = append(rets, t)
+			}
+			return true
+		})
+		for _, r := range rets {
+			var rep rope
+			rep = append(rep, g("{\n")...)
+			if len(r.Results) > 0 {
+				if s.form == formExpr || len(lhs) == 0 {
+					for range r.Results {
+						if len(rep) > 1 {
+							rep = append(rep, g(", ")...)
+						}
+						rep = append(rep, g("_")...)
+					}
+				} else {
+					rep = append(rep, g("%s", strings.Join(lhs, ", "))...)
+				}
+				rep = append(rep, g(" = ")...)
+				for i, x := range r.Results {
+					if i > 0 {
+						rep = append(rep, g(", ")...)
+					}
+					rep = append(rep, in.exprText(x)...)
+				}
+				rep = append(rep, g("\n")...)
+			}
+			rep = append(rep, g("break %s\n}", label)...)
+			in.exprRepl[r] = rep
+		}
+		out = append(out, g("%s:\nfor {\n", label)...)
+		for _, st := range body.List {
+			out = append(out, in.stmtText(st)...)
+			out = append(out, g("\n")...)
+		}
+		out = append(out, g("break %s\n}\n", label)...)
+		for _, r := range rets {
+			delete(in.exprRepl, r)
+		}
+	} else if s.form == formReturn {
 		for _, st := range body.List {
 			out = append(out, in.stmtText(st)...)
 			out = append(out, g("\n")...)
